@@ -684,6 +684,9 @@ type TokClient struct {
 	// cannot be turned into a channel, the call stays in flight
 	Mismatch func(ctx context.Context, tok string, plan Plan) (<-chan Item, error) `rpc_method:"Tok.NotAChan"`
 	NoCtx    func(tok string, plan Plan) (Result, error)                           `rpc_method:"Tok.Call"`
+	// RawBad hands the library raw params; called with bytes that are not JSON, the request cannot be written although the
+	// connection is fine (the frame encoder refuses it), and the call stays in flight until the connection or the client goes
+	RawBad func(ctx context.Context, p jsonrpc.RawParams) (Result, error) `rpc_method:"Tok.Call"`
 	// RetryNoCtx: retry-tagged and without a context parameter
 	RetryNoCtx func(tok string, plan Plan) (Result, error) `retry:"true" rpc_method:"Tok.Call"`
 }
